@@ -100,13 +100,13 @@ where
         let u = b.units[i];
         let v = b.vname(i);
         let r0 = i == 0;
-        calls.push(call(&["C07", "C11"], format!("{key}::{v} name/symbol/si_prefix"), move || format!("{}|{}|{:?}", u.name(), u.symbol(), u.si_prefix())).rep_if(r0));
+        calls.push(call(&["C07", "C11"], format!("{key}::{v} name/symbol/si_prefix"), move || format!("{}|{}|{:?}", u.name(), u.symbol(), u.si_prefix())));
         let sym = b.um(i).sym.clone();
         let s2 = sym.clone();
         calls.push(call(&["C09", "C15"], format!("{key}::unit_from_symbol({sym:?})"), move || format!("{:?}", Q::unit_from_symbol(&sym))).rep_if(r0));
-        calls.push(call(&["C09", "C15"], format!("{key} Unit::from_symbol({s2:?})"), move || format!("{:?}", <Q::UnitType as Unit>::from_symbol(&s2))).rep_if(r0));
-        calls.push(call(&["C15"], format!("format!(\"{{}}\", 2.5 {key}::{v})"), move || format!("{}", Q::new(two(), u))));
-        calls.push(call(&["C15"], format!("format!(\"{{:*>+14.3}}\", 2.5 {key}::{v})"), move || format!("{:*>+14.3}", Q::new(two(), u))).rep_if(r0));
+        calls.push(call(&["C09", "C15"], format!("{key} Unit::from_symbol({s2:?})"), move || format!("{:?}", <Q::UnitType as Unit>::from_symbol(&s2))));
+        calls.push(call(&["C15"], format!("format!(\"{{}}\", 2.5 {key}::{v})"), move || format!("{}", Q::new(two(), u))).rep_if(r0));
+        calls.push(call(&["C15"], format!("format!(\"{{:*>+14.3}}\", 2.5 {key}::{v})"), move || format!("{:*>+14.3}", Q::new(two(), u))));
         calls.push(call(&["C15"], format!("format!(\"{{:^7}}\", {key}::{v})"), move || format!("{:^7}", u)));
         if i < 2 {
             // Display into a sink that fails part-way: an early return must leave nothing behind for the next call
@@ -125,7 +125,7 @@ where
     calls.push(call(&["C08"], format!("2.5 {key}::{v} * 4"), move || {
         let q = Q::new(two(), u) * four();
         format!("{} {:?}", amt::show(q.amount()), q.unit())
-    }).rep_if(true));
+    }));
     calls.push(call(&["C08"], format!("4 * 2.5 {key}::{v}"), move || {
         let q = four() * Q::new(two(), u);
         format!("{} {:?}", amt::show(q.amount()), q.unit())
@@ -164,12 +164,12 @@ where
         calls.push(call(&["C02"], format!("2.5 {key}::{vu} ==,partial_cmp 4 {vw}"), move || {
             let (x, y) = (Q::new(two(), u), Q::new(four(), w));
             format!("{} {:?}", x == y, PartialOrd::partial_cmp(&x, &y))
-        }).rep_if(first));
+        }));
         calls.push(call(&["C03"], format!("2.5 {key}::{vu} +,-,/ 4 {vw}"), move || {
             let (x, y) = (Q::new(two(), u), Q::new(four(), w));
             let (s, d) = (x + y, x - y);
             format!("{} {:?} | {} {:?} | {}", amt::show(s.amount()), s.unit(), amt::show(d.amount()), d.unit(), amt::show(x / y))
-        }).rep_if(first));
+        }));
     }
 }
 
